@@ -57,17 +57,16 @@ let rec assoc_tmpl (name : Model.ascii list) l =
   | [] -> None
   | (n, t) :: r -> if n = name then Some t else assoc_tmpl name r
 
-let render t : string =
-  let name = next t in
-  let _stategood = next t in
-  let cluster = next_str t in let group = next_str t in let id = next_str t in
-  let _start = next_z t in
+let read_extras t =
   let nex = next_int t in
   let rec pairs i = if i <= 0 then [] else
       let k = cs (unhex (next t)) in let v = Model.VStr (cs (unhex (next t))) in (k, v) :: pairs (i - 1) in
   let extras = pairs nex in
   (* a Go map holds one value per key: the last one written *)
-  let extras = List.fold_left (fun acc (k, v) -> (k, v) :: List.filter (fun (k', _) -> k' <> k) acc) [] extras in
+  List.fold_left (fun acc (k, v) -> (k, v) :: List.filter (fun (k', _) -> k' <> k) acc) [] extras
+
+(* the rest of a case line after the extras: the group status; returns extras -> data value *)
+let read_status t cluster group id =
   let status = next_z t in
   let complete = next_float t in
   let totalparts = next_z t in
@@ -81,20 +80,57 @@ let render t : string =
       fld "Complete" complete;
       fld "Partitions" (kval (Model.VSlice (Model.TPtr (tnamed "PartitionStatus"), partitions)));
       fld "TotalPartitions" (kint totalparts); fld "Maxlag" (kval maxlag); fld "TotalLag" (kint totallag) ] in
-  let data = Model.build_struct Model.burrow_schema (Model.sch_root Model.burrow_schema)
-    [ fld "Cluster" cluster; fld "Group" group; fld "ID" id; fld "Start" (kval (Model.VOpaque (cs "time.Time")));
-      fld "Extras" (kval (Model.VMap (Model.TStr, extras))); fld "Result" (kval result) ] in
+  fun extras ->
+    Model.build_struct Model.burrow_schema (Model.sch_root Model.burrow_schema)
+      [ fld "Cluster" cluster; fld "Group" group; fld "ID" id; fld "Start" (kval (Model.VOpaque (cs "time.Time")));
+        fld "Extras" (kval (Model.VMap (Model.TStr, extras))); fld "Result" (kval result) ]
+
+let show (r : Model.piece list Model.result) : string =
+  match r with
+  | Model.Err _ -> "ERR"
+  | Model.Ok out -> if Model.pieces_valid out then "OK json=1" else "OK json=0"
+
+let render t : string =
+  let name = next t in
+  let _stategood = next t in
+  let cluster = next_str t in let group = next_str t in let id = next_str t in
+  let _start = next_z t in
+  let extras = read_extras t in
+  let data = read_status t cluster group id extras in
   if not (Model.wt Model.burrow_schema data) then "ILLTYPED"
   else
     match assoc_tmpl (cs name) Model.all_templates with
     | None -> "NO-SUCH-TEMPLATE"
-    | Some tm ->
-      match Model.exec Model.burrow_schema tm data with
-      | Model.Err _ -> "ERR"
-      | Model.Ok out -> if Model.pieces_valid out then "OK json=1" else "OK json=0"
+    | Some tm -> show (Model.exec Model.burrow_schema tm data)
+
+(* conf <reps> <#modules> {<name> <class> <open file> <close file> <send-close> <#extras> {k v}} <cluster> <group> <id>
+   <start> <status ...>: what each configured module renders for an open and for a close notification
+   (Tmpl.module_renders over the association Tmpl.load_templates) *)
+let conf t : string =
+  let _reps = next t in
+  let nm = next_int t in
+  let rec mods i = if i <= 0 then [] else begin
+      let name = next t in let _cls = next t in let fo = next t in let fc = next t in
+      let sc = next t = "1" in
+      let extras = read_extras t in
+      (name, fo, fc, sc, extras) :: mods (i - 1) end in
+  let ms = mods nm in
+  let cluster = next_str t in let group = next_str t in let id = next_str t in
+  let _start = next_z t in
+  let mk = read_status t cluster group id in
+  let cfg = List.map (fun (n, fo, fc, sc, _) ->
+      { Model.mc_name = cs n; Model.mc_open = cs fo; Model.mc_close = cs fc; Model.mc_send_close = sc }) ms in
+  let one (n, _, _, sc, extras) =
+    let data = mk extras in
+    if not (Model.wt Model.burrow_schema data) then n ^ " ILLTYPED"
+    else
+      let r good = show (Model.module_renders Model.burrow_schema Model.all_templates cfg (cs n) good data) in
+      n ^ " open=" ^ r false ^ " close=" ^ (if sc then r true else "none") in
+  String.concat " | " (List.map one (List.sort compare ms))
 
 let run (line : string) : string =
   let t = toks_of_line line in
   match next t with
   | "render" -> render t
+  | "conf" -> conf t
   | k -> failwith ("drv_tmpl: unknown case kind " ^ k)
